@@ -117,6 +117,7 @@ def gen_tally_case(rng: random.Random, idx: int, long_n: int = 0):
     p_init = 0.0 if long_n else rng.choice([0.0, 0.0, 0.05, 0.15])
     p_bad = 0.002 if long_n else rng.choice([0.0, 0.05, 0.2])
     p_qty = 0.0 if long_n else rng.choice([0.0, 0.0, 0.0, 0.1, 0.4])
+    p_foreign = 0.002 if long_n else rng.choice([0.0, 0.05, 0.15, 0.3])
     for v in vals:
         if rng.random() < p_init:
             ops.append({"op": "init"})
@@ -125,6 +126,9 @@ def gen_tally_case(rng: random.Random, idx: int, long_n: int = 0):
             if isinstance(b, list):
                 b = None
             ops.append({"op": "reg" if variant[0] == "Tally" or rng.random() < 0.5 else "notify", "v": L.enc(b)})
+        if variant[0] != "Tally" and rng.random() < p_foreign:
+            # a valid payload under an event type that merely has the NAME "DATA_EVENT" (defined in another class)
+            ops.append({"op": "foreign", "v": L.enc(v if rng.random() < 0.7 else float(rng.randint(-9, 9)))})
         how = "reg" if variant[0] == "Tally" or rng.random() < 0.7 else "notify"
         if rng.random() < p_qty and not isinstance(v, bool):
             # a Quantity is a float subclass: it counts with its si-value (register takes float(value), as notify does)
@@ -160,6 +164,8 @@ def gen_counter_case(rng: random.Random, idx: int):
             ops.append({"op": "reg", "v": L.qenc("Duration", 1.0, "s") if b == "quantity" else L.enc(b)})
         else:
             v = rng.choice([1, 1, -1, 0, True, rng.randint(-50, 50), rng.randint(-10 ** 30, 10 ** 30)])
+            if variant[0] != "Counter" and rng.random() < 0.15:
+                ops.append({"op": "foreign", "v": L.enc(rng.choice([1, 5, -2]))})     # same-named foreign event type
             ops.append({"op": "reg" if variant[0] == "Counter" or rng.random() < 0.7 else "notify", "v": L.enc(v)})
     if not ops:
         ops.append({"op": "init"})
@@ -242,6 +248,8 @@ def run_tally_case(case):
             try:
                 if op["op"] == "notify":
                     t.notify(Event(StatEvents.DATA_EVENT, v))
+                elif op["op"] == "foreign":
+                    t.notify(Event(L.foreign_event_type("DATA_EVENT"), v))
                 else:
                     t.register(v)
             except Exception as exc:  # noqa
@@ -278,6 +286,8 @@ def run_counter_case(case):
                 c.initialize()
             elif op["op"] == "notify":
                 c.notify(Event(StatEvents.DATA_EVENT, L.dec_impl(op["v"])))
+            elif op["op"] == "foreign":
+                c.notify(Event(L.foreign_event_type("DATA_EVENT"), L.dec_impl(op["v"])))
             else:
                 c.register(L.dec_impl(op["v"]))
         except Exception as exc:  # noqa
@@ -294,6 +304,8 @@ def run_counter_case(case):
 def expected_kind_tally(op):
     if op["op"] == "init":
         return "ok", None
+    if op["op"] == "foreign":          # notify() accepts StatEvents.DATA_EVENT only, whatever another type is called
+        return "ValueError", None
     v = L.dec(op["v"])
     if not L.is_number(v):
         return "TypeError", None
@@ -463,6 +475,10 @@ def oracle_tally(case, steps):
                 return (f"{who}-register-{qty}raises-{rec['kind']}",
                         f"{case['cls']}.{what}{sub} raised {rec['kind']} on a valid observation "
                         f"(observation #{len(eff) + 1} since the last initialize)", i), False
+            if op["op"] == "foreign":
+                return ("eventbased-tally-foreign-event-type-not-rejected",
+                        f"{case['cls']}.notify of an event whose type is a DIFFERENT EventType that is merely named 'DATA_EVENT' "
+                        f"(defined in class Sensor, payload {L.show(op['v'])}) ended with {rec['kind']}, expected ValueError", i), False
             return ("tally-invalid-observation-not-rejected",
                     f"{case['cls']}.{op['op']}({L.show(op['v'])}) ended with {rec['kind']}, expected {ek}", i), False
         if op["op"] == "init":
@@ -510,6 +526,12 @@ def oracle_counter(case, steps):
     for i, (op, rec) in enumerate(zip(case["ops"], steps)):
         if op["op"] == "init":
             ek, count, n = "ok", 0, 0
+        elif op["op"] == "foreign":        # a different EventType that is merely named DATA_EVENT
+            ek = "ValueError"
+            if rec["kind"] != ek:
+                return ("eventbased-counter-foreign-event-type-not-rejected",
+                        f"{case['cls']}.notify of an event whose type is a DIFFERENT EventType that is merely named 'DATA_EVENT' "
+                        f"(defined in class Sensor, payload {L.show(op['v'])}) ended with {rec['kind']}, expected ValueError", i), False
         else:
             v = L.dec(op["v"])
             ek = "ok" if isinstance(v, int) else "TypeError"
@@ -563,6 +585,10 @@ def c_tally_case(case, steps):
     for op, rec in zip(case["ops"], steps):
         if op["op"] == "init":
             cop = "(@TInit NumF)"
+        elif op["op"] == "foreign":
+            # notify's own event-type test is not part of the model: a notification it refuses enters as a refused
+            # observation of the same kind (ValueError); if the implementation accepted it, the step disagrees
+            cop = "(@TReg NumF ONaN)"
         else:
             v = L.dec(op["v"])
             if op["op"] == "notify" and not L.is_number(v):
@@ -586,6 +612,10 @@ def c_tally_case(case, steps):
 def c_counter_case(case, steps):
     items = []
     for op, rec in zip(case["ops"], steps):
+        if op["op"] == "foreign":
+            if rec["kind"] == "ValueError":
+                continue              # refused by notify's event-type test, nothing happened: no model step
+            return None
         if op["op"] == "init":
             cop = "CInit"
         else:
@@ -664,6 +694,9 @@ def shrink_case(case, sig):
 def describe_ops(case):
     out = []
     for op in case["ops"]:
+        if op["op"] == "foreign":
+            out.append(f"notify(Event(<EventType named 'DATA_EVENT' defined in class Sensor>, {L.show(op['v'])}))")
+            continue
         out.append("initialize()" if op["op"] == "init" else f"{op['op']}({L.show(op['v'])})")
     return out
 
@@ -726,7 +759,9 @@ def main(tier: str) -> int:
         if nontriv:
             nontrivial.add(json.dumps([case["cls"], case["subs"], case["ops"]], sort_keys=True))
         for op, rec in zip(case["ops"], steps):
-            ops_hist["initialize" if op["op"] == "init" else ("notify" if op["op"] == "notify" else "register")] += 1
+            ops_hist["initialize" if op["op"] == "init" else ("notify" if op["op"] in ("notify", "foreign") else "register")] += 1
+            if op["op"] == "foreign":
+                ops_hist["notify_with_same_named_foreign_event_type"] = ops_hist.get("notify_with_same_named_foreign_event_type", 0) + 1
             if rec["kind"] != "ok":
                 ops_hist["rejected"] += 1
                 kinds_hist[rec["kind"]] = kinds_hist.get(rec["kind"], 0) + 1
